@@ -1095,6 +1095,10 @@ HLPread(accrec_t *access_rec, int32 length, void *datap)
     if (access_rec->posn + length > info->length)
         length = info->length - access_rec->posn;
 
+    /* nothing to read at or beyond the end of the element */
+    if (length <= 0)
+        HGOTO_DONE(0);
+
     /* search for linked block to start reading from */
     if (relative_posn < info->first_length) { /* first block */
         block_idx      = 0;
@@ -1144,7 +1148,7 @@ HLPread(accrec_t *access_rec, int32 length, void *datap)
         }
         else { /*if block is missing, fill this part of buffer with zero's */
             memset(data, 0, (size_t)remaining);
-            bytes_read += nbytes;
+            bytes_read += remaining;
         }
 
         /* move variables for the next block */
